@@ -39,9 +39,12 @@ pub fn init_thread() {
 }
 
 pub fn init_global() {
-	global::init_global_chain_type(ChainTypes::AutomatedTesting);
-	global::init_global_nrd_enabled(true);
-	global::init_global_accept_fee_base(1);
+	static ONCE: std::sync::Once = std::sync::Once::new();
+	ONCE.call_once(|| {
+		global::init_global_chain_type(ChainTypes::AutomatedTesting);
+		global::init_global_nrd_enabled(true);
+		global::init_global_accept_fee_base(1);
+	});
 	init_thread();
 }
 
@@ -142,6 +145,11 @@ impl Lib {
 		c
 	}
 
+	fn blind_nolock(&self, o: &OutRef) -> SecretKey {
+		// derive_key takes the keychain's own secp context, not the static one
+		self.blind(o)
+	}
+
 	pub fn blind(&self, o: &OutRef) -> SecretKey {
 		if let Some(c) = self.blinds.lock().unwrap().get(o) {
 			return c.clone();
@@ -219,7 +227,9 @@ impl Lib {
 		let pubkey = excess.to_pubkey(&secp).expect("pubkey");
 		let features = KernelFeatures::Coinbase;
 		let msg = features.kernel_sig_msg().expect("msg");
-		let sig = aggsig::sign_from_key_id(&secp, &self.kc, &msg, r.amount, &r.key_id(), None, Some(&pubkey)).expect("sign");
+		let key = self.blind_nolock(r);
+		let nonce = det_nonce(&secp, &key, msg.as_ref());
+		let sig = aggsig::sign_single(&secp, &msg, &key, Some(&nonce), Some(&pubkey)).expect("sign");
 		TxKernel {
 			features,
 			excess,
@@ -244,9 +254,9 @@ impl Lib {
 			self.outs.lock().unwrap().insert(r, o.clone());
 			return (r, o, k);
 		}
-		let (o, k) = reward::output(&self.kc, &ProofBuilder::new(&self.kc), &r.key_id(), fees, false).expect("reward");
-		self.proofs_created.fetch_add(1, std::sync::atomic::Ordering::Relaxed);
-		self.to_disk(&r, &o);
+		let _ = reward::output::<ExtKeychain, ProofBuilder<ExtKeychain>>;
+		let o = self.output(&r);
+		let k = self.coinbase_kernel(&r, &o);
 		self.cbs.lock().unwrap().insert(r, (o.clone(), k.clone()));
 		self.outs.lock().unwrap().insert(r, o.clone());
 		(r, o, k)
@@ -357,6 +367,17 @@ pub fn sum_scalars(pos: Vec<SecretKey>, neg: Vec<SecretKey>) -> Option<SecretKey
 	secp.blind_sum(pos, neg).ok()
 }
 
+fn det_nonce(secp: &grin_util::secp::Secp256k1, key: &SecretKey, msg: &[u8]) -> SecretKey {
+	let mut ctr = 0u32;
+	loop {
+		let h = crate::refmmr::blake(&[b"gv-nonce", &key.0[..], msg, &ctr.to_be_bytes()]);
+		if let Ok(k) = SecretKey::from_slice(secp, &h) {
+			return k;
+		}
+		ctr += 1;
+	}
+}
+
 pub fn sign_kernel(features: KernelFeatures, excess_key: &SecretKey) -> TxKernel {
 	let secp = static_secp_instance();
 	let secp = secp.lock();
@@ -364,13 +385,10 @@ pub fn sign_kernel(features: KernelFeatures, excess_key: &SecretKey) -> TxKernel
 	k.excess = secp.commit(0, excess_key.clone()).expect("commit excess");
 	let msg = k.msg_to_sign().expect("msg");
 	let pubkey = k.excess.to_pubkey(&secp).expect("pubkey");
-	k.excess_sig = aggsig::sign_with_blinding(
-		&secp,
-		&msg,
-		&BlindingFactor::from_secret_key(excess_key.clone()),
-		Some(&pubkey),
-	)
-	.expect("sign");
+	// deterministic nonce (hash of key and message) so that every object the
+	// harness builds is a pure function of its recipe: runs are reproducible
+	let nonce = det_nonce(&secp, excess_key, msg.as_ref());
+	k.excess_sig = aggsig::sign_single(&secp, &msg, excess_key, Some(&nonce), Some(&pubkey)).expect("sign");
 	k
 }
 
